@@ -233,7 +233,12 @@ public:
     ssize_t len = ::readlink(path.c_str(), buff, sizeof(buff)-1);
     if (len != -1) {
       buff[len] = '\0';
-      PlatformSpecificHasher(std::string(buff)).readPathStringAndDigest(info.checksum);
+      // Hash the target together with a marker for the type: the comparison of
+      // two records ignores the mode, so without it a link and a regular file
+      // that holds exactly the target string (same size, same bytes) would be
+      // indistinguishable.
+      std::string linkContents = std::string("symlink:") + buff;
+      PlatformSpecificHasher(linkContents).readPathStringAndDigest(info.checksum);
     } else {
       // Not a symbolic link: fall back to the checksum of the object itself, so
       // that content and type changes are still detected.
